@@ -13,13 +13,13 @@ import rustscan as rs
 
 FILE_PROPS = {
     'src/util/leap.rs': ['C01'],
-    'src/util/date/convert.rs': ['C01', 'C02', 'C07'],
+    'src/util/date/convert.rs': ['C01', 'C02', 'C07', 'C18'],
     'src/util/date/validate.rs': ['C01', 'C15'],
     'src/util/date/manipulate.rs': ['C04', 'C05', 'C09'],
     'src/util/time/convert.rs': ['C03', 'C06'],
     'src/util/time/validate.rs': ['C15'],
     'src/util/time/manipulate.rs': ['C04', 'C09'],
-    'src/util/offset.rs': ['C10'],
+    'src/util/offset.rs': ['C10', 'C09'],
     'src/offset.rs': ['C10', 'C15', 'C19'],
     'src/util/format.rs': ['C11'],
     'src/local/timezone.rs': ['C18', 'C19'],
